@@ -61,15 +61,24 @@ def plan_rules(ctx, F, rid):
         """(param index, via_keys) of the map iterated by the innermost loop containing bb."""
         for nb, nt in nexts:
             if any(nb in loops[h] for h in loop_of(bb)):
-                io = fl.origins(nt['args'][0])
-                ps = {o.key for o in io if o.kind == 'param'}
-                calls = {o.key for o in io if o.kind == 'call'}
-                keysrc = set()
-                for o in io:
-                    if o.kind == 'call' and o.key.endswith('::keys'):
-                        keysrc |= {x.key for x in call_arg_origins(fl, o.bb, 0) if x.kind == 'param'}
-                extra = {c for c in calls if not c.endswith('::keys')}
-                return nb, ps | keysrc, extra
+                # the iterated map, through adaptors that keep every entry (iter / keys / into_iter / by_ref / enumerate)
+                WHOLE = ('keys', 'iter', 'into_iter', 'by_ref', 'enumerate', 'into_keys', 'deref')
+                ps, extra = set(), set()
+                work = [nt['args'][0]]
+                for _ in range(8):
+                    nxt_ = []
+                    for op_ in work:
+                        for o in fl.origins(op_):
+                            if o.kind == 'param':
+                                ps.add(o.key)
+                            elif o.kind == 'call' and o.key.split('::')[-1] in WHOLE:
+                                nxt_.append(b.blocks[o.bb]['term']['args'][0])
+                            elif o.kind == 'call':
+                                extra.add(o.key)
+                    work = nxt_
+                    if not work:
+                        break
+                return nb, ps, extra
         return None, set(), set()
 
     def excl_edges(path_sig):
@@ -139,12 +148,18 @@ def plan_rules(ctx, F, rid):
             for sb, st in switch_blocks_on(fl, lambda os_: bool(os_) and all(o.kind == 'param' and o.key == del_i for o in os_)):
                 tr, fa = bool_edges(sb, st)
                 del_true |= tr
+            # "absent from the source": the false edge of src.contains_key(path), or the None side of src.get(path)
             ck_false = set()
-            for cb, ct in fl.calls_to('std::collections::BTreeMap::<K, V, A>::contains_key'):
+            for cb, ct in fl.calls(lambda c: c.split('::')[-1] in ('contains_key', 'get')):
                 m = fl.origins(ct['args'][0])
                 k = {(x.kind, x.key, x.bb) for x in fl.origins(ct['args'][1])}
-                if all(x.kind == 'param' and x.key == src_i for x in m) and k == val_sig:
-                    ck_false |= fl.outcomes(cb).get('false', set())
+                if m and all(x.kind == 'param' and x.key == src_i for x in m) and k == val_sig:
+                    oc_ = fl.outcomes(cb)
+                    ck_false |= oc_.get('false', set()) if callee(ct).endswith('contains_key') else oc_.get('None', set())
+                    if callee(ct).endswith('::get'):
+                        for ib, it in fl.calls(lambda c: c.startswith('std::option::Option::<') and c.split('::')[-1] in ('is_none', 'is_some')):
+                            if any(o.kind == 'call' and o.bb == cb for o in fl.origins(it['args'][0])):
+                                ck_false |= fl.outcomes(ib).get('true' if callee(it).endswith('is_none') else 'false', set())
             g = all([bool(ex_f), bool(del_true), bool(ck_false)]) and cfg.edges_guard(ex_f, pb) and cfg.edges_guard(del_true, pb) and cfg.edges_guard(ck_false, pb)
             u = g and unavoidable(ex_f, pb, heads)
             ctx.check(whole and g and u, rid, 'build_plan:delete', 'push(path) iff with_delete && !src.contains_key(path) && !is_excluded(path), over all dst keys',
